@@ -166,6 +166,8 @@ Definition i_update (rb : irib) (p : mpeer) (u : upd) : irib :=
   | UEor _ => rb
   | URoutes af ann a wf wd =>
       fold_left (fun rb x => i_ann rb p af x a) ann (fold_left (fun rb x => i_wd rb p wf x) wd rb)
+  | UGen _ _ _ ann a wd =>
+      fold_left (fun rb (x : N * N) => i_ann rb p x.1 x.2 a) ann (fold_left (fun rb (x : N * N) => i_wd rb p x.1 x.2) wd rb)
   end.
 
 Definition i_rec (pit : list mpeer) (rb : irib) (rc : mrec) : irib :=
